@@ -177,6 +177,7 @@ func main() {
 	ms := prog.MethodSets.MethodSet(pt)
 	var wrappers []wfn
 	var promoted []string
+	var helpers []string
 	for i := 0; i < ms.Len(); i++ {
 		sel := ms.At(i)
 		fn := prog.MethodValue(sel)
@@ -189,30 +190,73 @@ func main() {
 			}
 			continue
 		}
+		if !sel.Obj().Exported() {
+			// not callable from outside the package: a helper of the wrappers, looked into
+			// where a wrapper (or a goroutine it starts) calls it
+			helpers = append(helpers, sel.Obj().Name())
+			continue
+		}
 		wrappers = append(wrappers, wfn{sel.Obj().Name(), fn})
+		A.wrapperSet[fn] = true
 	}
 	sort.Slice(wrappers, func(i, j int) bool { return wrappers[i].name < wrappers[j].name })
 	sort.Strings(promoted)
-	var goBodies []wfn
+	sort.Strings(helpers)
 	for _, w := range wrappers {
 		A.record[w.fn] = true
 		A.need(w.fn)
-		n := 0
-		for _, b := range w.fn.Blocks {
+	}
+	// goroutine bodies: every function started by a go statement anywhere in the module is
+	// analysed and recorded (which ones the wrappers start is found by the section walk)
+	for fn := range ssautil.AllFunctions(prog) {
+		if fn.Blocks == nil || fn.Pkg == nil || !isBuilt(fn.Pkg) {
+			continue
+		}
+		for _, b := range fn.Blocks {
 			for _, ins := range b.Instrs {
-				if g, ok := ins.(*ssa.Go); ok {
-					if mc, ok := g.Common().Value.(*ssa.MakeClosure); ok {
-						n++
-						f := mc.Fn.(*ssa.Function)
+				if g, ok := ins.(*ssa.Go); ok && !g.Common().IsInvoke() {
+					var f *ssa.Function
+					switch v := g.Common().Value.(type) {
+					case *ssa.MakeClosure:
+						f = v.Fn.(*ssa.Function)
+					case *ssa.Function:
+						f = v
+					}
+					if f != nil && f.Blocks != nil {
 						A.record[f] = true
 						A.need(f)
-						goBodies = append(goBodies, wfn{fmt.Sprintf("%s$go%d", w.name, n), f})
 					}
 				}
 			}
 		}
 	}
 	A.run()
+	// the helpers the section walk may have to look into: functions that operate e.m or create /
+	// pass on function values that do, and every function whose address is taken in the module
+	// (closures handed to such helpers): record their per-instruction accesses
+	recordHelpers := func() bool {
+		A.computeLockish()
+		added := false
+		add := func(f *ssa.Function) {
+			if f.Blocks != nil && !A.record[f] {
+				A.record[f] = true
+				A.need(f)
+				added = true
+			}
+		}
+		for f := range A.lockish {
+			add(f)
+		}
+		for f := range A.modTaken {
+			if A.reach[f] || strings.HasPrefix(f.Synthetic, "bound method wrapper") {
+				add(f)
+			}
+		}
+		return added
+	}
+	for round := 0; round < 5 && recordHelpers(); round++ {
+		A.run()
+	}
 	// function values that reach user code behind an interface: lock-free pseudo-wrappers
 	var callbacks []wfn
 	seenCb := map[*ssa.Function]bool{}
@@ -245,21 +289,45 @@ func main() {
 			break
 		}
 		A.run()
+		for r := 0; r < 5 && recordHelpers(); r++ {
+			A.run()
+		}
 	}
 
 	var table []*Wrapper
-	for _, w := range wrappers {
-		wr, _ := A.analyzeWrapper(w.fn, w.name, false)
-		table = append(table, wr)
+	type goBody struct {
+		name string
+		sp   spawnRec
 	}
-	for _, g := range goBodies {
-		wr, _ := A.analyzeWrapper(g.fn, g.name, true)
+	var goBodies []goBody
+	seenGo := map[*ssa.Function]bool{}
+	addSpawned := func(parent string, sps []spawnRec) {
+		n := 0
+		for _, sp := range sps {
+			n++
+			if seenGo[sp.fn] {
+				continue
+			}
+			seenGo[sp.fn] = true
+			goBodies = append(goBodies, goBody{fmt.Sprintf("%s$go%d", parent, n), sp})
+		}
+	}
+	for _, w := range wrappers {
+		wr, sps := A.analyzeWrapper(w.fn, w.name, false, false)
 		table = append(table, wr)
+		addSpawned(w.name, sps)
 	}
 	var cbTable []*Wrapper
 	for _, g := range callbacks {
-		wr, _ := A.analyzeWrapper(g.fn, g.name, true)
+		wr, sps := A.analyzeWrapper(g.fn, g.name, true, false)
 		cbTable = append(cbTable, wr)
+		addSpawned(g.name, sps)
+	}
+	for i := 0; i < len(goBodies); i++ { // grows while goroutine bodies start further goroutines
+		g := goBodies[i]
+		wr, sps := A.analyzeWrapper(g.sp.fn, g.name, true, g.sp.static)
+		table = append(table, wr)
+		addSpawned(g.name, sps)
 	}
 	// a location synchronised by two different mutexes is not synchronised
 	demoted := map[string]bool{}
@@ -286,6 +354,7 @@ func main() {
 		}
 	}
 	consts := autoLoadConsts(A, wrappers2map(wrappers))
+	A.helpers = helpers
 
 	if *dump != "" {
 		for _, wr := range table {
@@ -368,27 +437,86 @@ func summary(table []*Wrapper) {
 }
 
 // autoLoadConsts reads the shape of the auto-load protocol off the SSA of
-// StartAutoLoadPolicy / StopAutoLoadPolicy so that the Coq model follows the source.
+// StartAutoLoadPolicy / StopAutoLoadPolicy so that the Coq model follows the source.  Helpers of
+// the root package that are not API wrappers are looked into (static calls, deferred calls,
+// closures), and the loader is whatever Start -- or a helper of it -- starts with a go statement.
 func autoLoadConsts(A *Analyzer, ws map[string]*ssa.Function) Consts {
 	var c Consts
 	chanLoc := "casbin.SyncedEnforcer.stopAutoLoad"
 	flagLoc := "casbin.SyncedEnforcer.autoLoadRunning"
+	// reach: the function, the helpers it calls / defers and the closures it creates (other than
+	// goroutine bodies); spawned: the functions started as goroutines from there
+	reach := func(roots ...*ssa.Function) (fns []*ssa.Function, spawned []*ssa.Function) {
+		seen := map[*ssa.Function]bool{}
+		seenSp := map[*ssa.Function]bool{}
+		var visit func(f *ssa.Function)
+		visit = func(f *ssa.Function) {
+			if f == nil || f.Blocks == nil || seen[f] {
+				return
+			}
+			seen[f] = true
+			fns = append(fns, f)
+			for _, b := range f.Blocks {
+				for _, ins := range b.Instrs {
+					if g, ok := ins.(*ssa.Go); ok {
+						var t *ssa.Function
+						switch v := g.Common().Value.(type) {
+						case *ssa.MakeClosure:
+							t = v.Fn.(*ssa.Function)
+						case *ssa.Function:
+							t = v
+						}
+						if t != nil && !seenSp[t] && !A.wrapperSet[t] {
+							seenSp[t] = true
+							spawned = append(spawned, t)
+						}
+						continue
+					}
+					if ci, ok := ins.(ssa.CallInstruction); ok {
+						if t := ci.Common().StaticCallee(); t != nil && !A.wrapperSet[t] && t.Pkg == f.Pkg && t.Pkg != nil {
+							visit(t)
+						}
+					}
+					if mc, ok := ins.(*ssa.MakeClosure); ok {
+						isGo := false
+						if refs := mc.Referrers(); refs != nil {
+							for _, r := range *refs {
+								if g, ok := r.(*ssa.Go); ok && g.Common().Value == ssa.Value(mc) {
+									isGo = true
+								}
+							}
+						}
+						if !isGo {
+							visit(mc.Fn.(*ssa.Function))
+						}
+					}
+				}
+			}
+		}
+		for _, r := range roots {
+			visit(r)
+		}
+		return
+	}
 	if stop := ws["StopAutoLoadPolicy"]; stop != nil {
 		bare, nb := 0, 0
-		for _, b := range stop.Blocks {
-			for _, ins := range b.Instrs {
-				switch x := ins.(type) {
-				case *ssa.Send:
-					if locOf(x.Chan) == chanLoc {
-						bare++
-					}
-				case *ssa.Select:
-					for _, s := range x.States {
-						if s.Dir == types.SendOnly && locOf(s.Chan) == chanLoc {
-							if x.Blocking {
-								bare++
-							} else {
-								nb++
+		fns, _ := reach(stop)
+		for _, f := range fns {
+			for _, b := range f.Blocks {
+				for _, ins := range b.Instrs {
+					switch x := ins.(type) {
+					case *ssa.Send:
+						if locOf(x.Chan) == chanLoc {
+							bare++
+						}
+					case *ssa.Select:
+						for _, s := range x.States {
+							if s.Dir == types.SendOnly && locOf(s.Chan) == chanLoc {
+								if x.Blocking {
+									bare++
+								} else {
+									nb++
+								}
 							}
 						}
 					}
@@ -397,36 +525,43 @@ func autoLoadConsts(A *Analyzer, ws map[string]*ssa.Function) Consts {
 		}
 		c.StopSendNonblocking = bare == 0 && nb > 0
 	}
+	atomicOn := func(ins ssa.Instruction, prefix string) bool {
+		ci, ok := ins.(ssa.CallInstruction)
+		if !ok {
+			return false
+		}
+		if _, isGo := ins.(*ssa.Go); isGo {
+			return false
+		}
+		cc := ci.Common()
+		f := cc.StaticCallee()
+		return f != nil && f.Pkg != nil && f.Pkg.Pkg.Path() == "sync/atomic" && strings.HasPrefix(f.Name(), prefix) &&
+			len(cc.Args) > 0 && locOf(cc.Args[0]) == flagLoc
+	}
 	if start := ws["StartAutoLoadPolicy"]; start != nil {
-		for _, b := range start.Blocks {
-			for _, ins := range b.Instrs {
-				switch x := ins.(type) {
-				case *ssa.Call:
-					if f := x.Common().StaticCallee(); f != nil && f.Pkg != nil && f.Pkg.Pkg.Path() == "sync/atomic" &&
-						strings.HasPrefix(f.Name(), "CompareAndSwap") && len(x.Common().Args) > 0 && locOf(x.Common().Args[0]) == flagLoc {
+		fns, spawned := reach(start)
+		for _, f := range fns {
+			for _, b := range f.Blocks {
+				for _, ins := range b.Instrs {
+					if _, isDefer := ins.(*ssa.Defer); !isDefer && atomicOn(ins, "CompareAndSwap") {
 						c.StartUsesCAS = true
 					}
-				case *ssa.Select:
-					for _, s := range x.States {
-						if s.Dir == types.RecvOnly && locOf(s.Chan) == chanLoc && !x.Blocking {
-							c.StartDrains = true
+					if x, ok := ins.(*ssa.Select); ok {
+						for _, s := range x.States {
+							if s.Dir == types.RecvOnly && locOf(s.Chan) == chanLoc && !x.Blocking {
+								c.StartDrains = true
+							}
 						}
 					}
 				}
 			}
 		}
-		for _, an := range start.AnonFuncs {
-			var all []*ssa.Function
-			collectGroup(an, &all)
-			for _, g := range all {
-				for _, b := range g.Blocks {
-					for _, ins := range b.Instrs {
-						if x, ok := ins.(*ssa.Call); ok {
-							if f := x.Common().StaticCallee(); f != nil && f.Pkg != nil && f.Pkg.Pkg.Path() == "sync/atomic" &&
-								strings.HasPrefix(f.Name(), "Store") && len(x.Common().Args) > 0 && locOf(x.Common().Args[0]) == flagLoc {
-								c.LoaderClearsFlag = true
-							}
-						}
+		loader, _ := reach(spawned...)
+		for _, g := range loader {
+			for _, b := range g.Blocks {
+				for _, ins := range b.Instrs {
+					if atomicOn(ins, "Store") {
+						c.LoaderClearsFlag = true
 					}
 				}
 			}
@@ -455,6 +590,7 @@ type jsonWrapper struct {
 	Sections  []jsonSection `json:"sections"`
 	APICalls  []string      `json:"api_calls,omitempty"`
 	Spawns    []string      `json:"spawns,omitempty"`
+	Inlined   []string      `json:"helpers_walked_inline,omitempty"`
 	Synthetic bool          `json:"goroutine_body,omitempty"`
 	Exception string        `json:"exception,omitempty"`
 	Escapes   []string      `json:"returned_references,omitempty"`
@@ -472,6 +608,7 @@ type jsonDump struct {
 	Functions      int           `json:"functions_analysed"`
 	Exceptions     [][2]string   `json:"exceptions"`
 	RaceExceptions [][3]string   `json:"race_exceptions"`
+	Helpers        []string      `json:"unexported_helper_methods"`
 }
 
 func coqStr(s string) string { return "\"" + strings.ReplaceAll(s, "\"", "\"\"") + "\"" }
@@ -577,7 +714,7 @@ func emit(out, jsonOut, repo string, table, cbTable []*Wrapper, consts Consts, b
 		}
 		return r
 	}
-	jd := jsonDump{Repo: repo, Consts: consts, Promoted: promoted, Functions: len(A.order)}
+	jd := jsonDump{Repo: repo, Consts: consts, Promoted: promoted, Functions: len(A.order), Helpers: A.helpers}
 	var exceptions [][2]string
 	var irregulars [][2]string
 	emitTable := func(defName string, table []*Wrapper, isMain bool) {
@@ -589,7 +726,7 @@ func emit(out, jsonOut, repo string, table, cbTable []*Wrapper, consts Consts, b
 				irregulars = append(irregulars, [2]string{wr.Name, wr.Irregular})
 			}
 			fmt.Fprintf(&b, "  {| w_name := %s; w_shape := %s; w_sections := [", coqStr(wr.Name), shape)
-			jw := jsonWrapper{Name: wr.Name, File: wr.File, Irregular: wr.Irregular, APICalls: keys(wr.APICalls), Spawns: wr.Spawns, Synthetic: wr.Synthetic}
+			jw := jsonWrapper{Name: wr.Name, File: wr.File, Irregular: wr.Irregular, APICalls: keys(wr.APICalls), Spawns: wr.Spawns, Inlined: wr.Inlined, Synthetic: wr.Synthetic}
 			for j, s := range wr.Sections {
 				m := map[string]string{"R": "R", "W": "W", "N": "NoLock"}[s.Mode]
 				if j > 0 {
